@@ -131,8 +131,18 @@ fn run_with_retry(chunks: &[Chunk]) -> Outcome {
     o
 }
 
+/// every third message or so carries an additional Content-Type header (before or after
+/// Content-Length), chosen by a hash of the message so that all runs of a case agree
+pub fn framed(m: &Value) -> Vec<u8> {
+    match fnv(m.to_string().as_bytes()) % 5 {
+        0 => session::frame_with_content_type(m, true),
+        1 => session::frame_with_content_type(m, false),
+        _ => session::frame(m),
+    }
+}
+
 pub fn check_segmentation(msgs: &[Value], seg: &Segmentation, r: &mut CaseResult, label: &str) {
-    let frames: Vec<Vec<u8>> = msgs.iter().map(session::frame).collect();
+    let frames: Vec<Vec<u8>> = msgs.iter().map(framed).collect();
     let stream: Vec<u8> = frames.concat();
     let reference = run_with_retry(&[Chunk { bytes: stream.clone(), sleep_before_ms: 0 }]);
     let chunks = segment(&stream, seg, &frames);
@@ -174,7 +184,7 @@ fn decode_twoway(bytes: &[u8]) -> (Vec<Value>, usize) {
     let (sb, tail) = bytes.split_at(bytes.len().saturating_sub(3));
     let mut s = Src::new(sb);
     let msgs = gen_session(&mut s);
-    let len: usize = msgs.iter().map(|m| session::frame(m).len()).sum();
+    let len: usize = msgs.iter().map(|m| framed(m).len()).sum();
     let sel = tail.iter().fold(0usize, |a, b| (a << 8) | *b as usize);
     let k = if tail.len() == 3 { sel.min(len) } else { 0 };
     (msgs, k)
@@ -205,7 +215,7 @@ pub struct RandomSegments;
 fn decode_random(bytes: &[u8]) -> (Vec<Value>, Segmentation, String) {
     let mut s = Src::new(bytes);
     let msgs = gen_session(&mut s);
-    let len: usize = msgs.iter().map(|m| session::frame(m).len()).sum();
+    let len: usize = msgs.iter().map(|m| framed(m).len()).sum();
     match s.below(8) {
         0 => (msgs, Segmentation::Bytewise, "one byte per write".into()),
         1 => {
@@ -262,7 +272,7 @@ pub fn enumerate(ctx: &Ctx, n: usize, max_stream: usize) -> Vec<Vec<u8>> {
         }
         let mut s = Src::new(&sb);
         let msgs = gen_session(&mut s);
-        let len: usize = msgs.iter().map(|m| session::frame(m).len()).sum();
+        let len: usize = msgs.iter().map(|m| framed(m).len()).sum();
         if len > max_stream {
             continue;
         }
@@ -290,7 +300,7 @@ pub fn run(ctx: &Ctx) -> i32 {
     finish(
         ctx,
         parts,
-        "sessions (initialize with diagnostics capability, initialized, 2-7 of didOpen with non-ASCII texts and bodies of 2- to 5-digit length / didChange / supported requests / unknown notifications with non-ASCII payload, shutdown, exit) against the real binary; every two-way split position of 4 (thorough: 60) seed-derived sessions, and random segmentations: one byte per write, several messages per write, 2-13 random cuts with 0-2 ms sleeps; metamorphic oracle: responses (in order, full JSON), published diagnostics per URI (in order) and exit status equal those of the same stream written in one piece; every emitted frame parses strictly (Content-Length = byte length of a valid UTF-8 JSON body); every request of the unsegmented run is answered; all cases are non-trivial; distinct = distinct (session, segmentation); each evaluation is two runs of the server",
+        "sessions (initialize with diagnostics capability, initialized, 2-7 of didOpen with non-ASCII texts and bodies of 2- to 5-digit length / didChange / supported requests / unknown notifications with non-ASCII payload, shutdown, exit; two fifths of the frames carry an additional Content-Type header before or after Content-Length) against the real binary; every two-way split position of 4 (thorough: 60) seed-derived sessions, and random segmentations: one byte per write, several messages per write, 2-13 random cuts with 0-2 ms sleeps; metamorphic oracle: responses (in order, full JSON), published diagnostics per URI (in order) and exit status equal those of the same stream written in one piece; every emitted frame parses strictly (Content-Length = byte length of a valid UTF-8 JSON body); every request of the unsegmented run is answered; all cases are non-trivial; distinct = distinct (session, segmentation); each evaluation is two runs of the server",
         &["responses and diagnostics notifications are produced by different tasks: their relative interleaving is not compared", "watchdog 20 s, three attempts"],
         json!({}),
     )
